@@ -128,14 +128,18 @@ def run_case(ctx, frames, damage, mode, handler, backend="file"):
         else:
             guard = 3 * len(frames) + 8
             after_exc = False
-            use_next = (len(data) + len(dmg)) % 2 == 1  # half of the raise-mode runs use next(reader)
-            ctx.hit("raise_via_next" if use_next else "raise_via_read")
+            # raise-mode consumers: read(); next(reader); an iterator obtained ONCE with iter(reader) and kept across
+            # the exceptions (what a `for` statement holds)
+            style = (len(data) + len(dmg)) % 3
+            use_next = style != 0
+            it = iter(rdr) if style == 2 else rdr
+            ctx.hit(("raise_via_read", "raise_via_next", "raise_via_held_iterator")[style])
             while guard > 0:
                 guard -= 1
                 try:
                     if use_next:
                         try:
-                            raw, parsed = next(rdr)
+                            raw, parsed = next(it)
                         except StopIteration:
                             break
                     else:
